@@ -27,6 +27,7 @@ def exitTable : ExitTable where
     ("EXIT_TR_INCREASE_ERROR", "Error (trust region increase): "),
     ("EXIT_LINALG_ERROR", "Error (linear algebra): "),
     ("EXIT_FALSE_SUCCESS_WARNING", "Warning (max false good steps): "),
+    ("EXIT_AUTO_DETECT_RESTART_WARNING", "Warning (auto-detected restart): "),
     ("EXIT_EVAL_ERROR", "Error (function evaluation): ")]
   unknownStem := "Unknown exit flag: "
   restartYes := ["EXIT_TR_INCREASE_ERROR", "EXIT_TR_INCREASE_WARNING", "EXIT_LINALG_ERROR", "EXIT_SLOW_WARNING", "EXIT_AUTO_DETECT_RESTART_WARNING", "EXIT_EVAL_ERROR"]
@@ -65,6 +66,6 @@ def exitTable : ExitTable where
     ("EXIT_INPUT_ERROR", "Parallel initialisation not yet developed for coordinate initial directions"),
     ("EXIT_INPUT_ERROR", "Growing: if resetting rho, must also reset delta"),
     ("EXIT_SUCCESS", "Reached maximum number of unsuccessful restarts")]
-  userGuideExits := ["EXIT_SUCCESS", "EXIT_MAXFUN_WARNING", "EXIT_SLOW_WARNING", "EXIT_FALSE_SUCCESS_WARNING", "EXIT_TR_INCREASE_WARNING", "EXIT_INPUT_ERROR", "EXIT_TR_INCREASE_ERROR", "EXIT_LINALG_ERROR", "EXIT_EVAL_ERROR"]
+  userGuideExits := ["EXIT_SUCCESS", "EXIT_MAXFUN_WARNING", "EXIT_SLOW_WARNING", "EXIT_FALSE_SUCCESS_WARNING", "EXIT_TR_INCREASE_WARNING", "EXIT_AUTO_DETECT_RESTART_WARNING", "EXIT_INPUT_ERROR", "EXIT_TR_INCREASE_ERROR", "EXIT_LINALG_ERROR", "EXIT_EVAL_ERROR"]
 
 end Dfols.Spec
